@@ -607,10 +607,14 @@ func NewRaft(conf *Config, fsm FSM, logs LogStore, stable StableStore, snaps Sna
 		return nil, err
 	}
 
-	// Scan through the log for any configuration change entries.
+	// Scan through the log for any configuration change entries. The scan
+	// starts right after the snapshot, not after the last applied index:
+	// with RestoreCommittedLogs the entries up to the persisted commit index
+	// have just been replayed into the FSM, but replaying does not rebuild
+	// r.configurations, so configuration entries in that range must still be
+	// processed here.
 	snapshotIndex, _ := r.getLastSnapshot()
-	lastappliedIndex := r.getLastApplied()
-	for index := max(snapshotIndex, lastappliedIndex) + 1; index <= lastLog.Index; index++ {
+	for index := snapshotIndex + 1; index <= lastLog.Index; index++ {
 		var entry Log
 		if err := r.logs.GetLog(index, &entry); err != nil {
 			r.logger.Error("failed to get log", "index", index, "error", err)
